@@ -10,6 +10,7 @@ import numpy as np
 
 from harness import scen
 from harness.common import Ctx, driver, pmap, use_repo
+from harness.props import c08
 
 
 def special_cases(seed):
@@ -78,3 +79,34 @@ def run(ctx: Ctx):
                           dict(differences=[dict(what=a, implementation=str(b)[:400], model=str(c)[:400]) for a, b, c in diffs[:4]],
                                theorem="Ladim.C06.record_faithful / pvars_complete / dense_faithful (records = living particles of the model state)"),
                           tags=dict(first=diffs[0][0].split(" ")[-1], layout=sc["layout"]))
+
+    # records of warm-started runs: the first record of such a run is not taken at step 0
+    nw = 40 if ctx.thorough else 8
+    wcases = [c08.make_base(ctx.seed * 100000 + 600 + k) for k in range(nw)]
+    res = pmap(c08.run_base_and_restarts, wcases)
+    reqs, meta = [], []
+    for sc, g in zip(wcases, res):
+        if g["status"] != "ok" or not g["restarts"]:
+            continue
+        base_recs = c08.records_of(g["files"], sc)
+        npid_at = {e["step"]: e["npid"] for e in g["ibm"]["log"]}
+        for rs in g["restarts"][:2]:
+            fk = g["files"][rs["k"]]
+            at, _ = c08.abs_times(fk)
+            rstep = int(round((at[-1] - sc["start"]) / scen.DT))
+            if rs["status"] != "ok" or npid_at.get(rstep, 0) > max(fk["pid"] + [-1]) + 1:
+                continue   # restart itself, and the unrecorded-pid finding, are C08's business
+            sc2, rq = c08.warm_request(sc, g, rs["k"], base_recs)
+            reqs.append(rq); meta.append((sc2, rs, dict(scenario=scen.brief(sc), restart_from=fk["name"], at_step=rstep)))
+    want = driver(reqs)
+    for (sc2, rs, case), w in zip(meta, want):
+        ctx.case("warm-run", [sc2["seed"], case["restart_from"]], sample=case, nontrivial=True)
+        if "error" in w:
+            ctx.violation("tie-broken", "warm-run", case, dict(model=w)); continue
+        bad = monitor(sc2, dict(status="ok", files=rs["files"]))
+        diffs = scen.compare_files(sc2, rs["files"], w["files"])
+        if bad or diffs:
+            ctx.violation("failing-input", "warm-run", case,
+                          dict(broken=bad[:3], differences=[dict(what=a, implementation=str(x)[:300], model=str(y)[:300]) for a, x, y in diffs[:3]],
+                               theorem="Ladim.C06.record_faithful (records of a warm-started run)"),
+                          tags=dict(first=(bad[0][:20] if bad else diffs[0][0].split(" ")[-1])))
